@@ -159,9 +159,7 @@ func (b *BFS) Explore() bool {
 			seen[k] = struct{}{}
 			b.R.Mark("states", Hash(b.Name, r.key))
 			next = append(next, r.hist)
-			if len(r.hist) <= 3 {
-				b.R.Sample(b.Name, b.RenderHist(r.hist))
-			}
+			b.R.Sample(fmt.Sprintf("%s depth %d", b.Name, len(r.hist)), b.RenderHist(r.hist))
 		}
 		b.R.Max("depth_completed", int64(depth))
 		b.R.Max("max_depth", int64(depth))
